@@ -5,6 +5,7 @@
 
 #include "engines/common/verif.h"
 #include "harness/C03_pipe.h"
+#include "harness/C03_cgw.h"
 #include "iogateway/MessageIOGateway.h"
 #include "iogateway/TemplatingMessageIOGateway.h"
 #include "iogateway/PlainTextMessageIOGateway.h"
@@ -189,7 +190,8 @@ static inline void CanonWebSocket(const WebSocketMessageIOGateway & g, std::stri
 }
 
 // ---------------------------------------------------------------- gateway kinds
-enum KindId { K_BIN, K_TPL, K_TXT, K_RAW, K_SLIP, K_WS_CLIENT, K_WS_SERVER };
+enum KindId { K_BIN, K_TPL, K_TXT, K_RAW, K_SLIP, K_WS_CLIENT, K_WS_SERVER, K_MINI_C, K_MICRO_C };
+static const uint32 MAX_INCOMING = 1024 * 1024;
 enum Granularity { G_MESSAGES, G_LINES, G_BYTES, G_FRAMES };
 
 struct Kind {
@@ -207,14 +209,17 @@ struct Kind {
    AbstractMessageIOGatewayRef Make() const
    {
       switch (id) {
-      case K_BIN: return AbstractMessageIOGatewayRef(new TableEncodingGateway(encTable));
-      case K_TPL: return AbstractMessageIOGatewayRef(new TemplatingMessageIOGateway(lruBytes, encTable.empty() ? MUSCLE_MESSAGE_ENCODING_DEFAULT : encTable[0]));
+      // (receivers get the documented incoming-size limit, so that a gateway that has lost its place in the stream reports an error instead of allocating gigabytes)
+      case K_BIN: { TableEncodingGateway * g = new TableEncodingGateway(encTable); g->SetMaxIncomingMessageSize(MAX_INCOMING); return AbstractMessageIOGatewayRef(g); }
+      case K_TPL: { TemplatingMessageIOGateway * g = new TemplatingMessageIOGateway(lruBytes, encTable.empty() ? MUSCLE_MESSAGE_ENCODING_DEFAULT : encTable[0]); g->SetMaxIncomingMessageSize(MAX_INCOMING); return AbstractMessageIOGatewayRef(g); }
       case K_TXT: { PlainTextMessageIOGateway * g = new PlainTextMessageIOGateway; g->SetOutgoingEndOfLineString(eol.c_str()); return AbstractMessageIOGatewayRef(g); }
       case K_RAW: return AbstractMessageIOGatewayRef(new RawDataMessageIOGateway(minChunk, maxChunk));
       case K_SLIP: return AbstractMessageIOGatewayRef(new SLIPFramedDataMessageIOGateway);
+      case K_MINI_C: return AbstractMessageIOGatewayRef(new MiniCGateway);
+      case K_MICRO_C: return AbstractMessageIOGatewayRef(new MicroCGateway);
       case K_WS_CLIENT: case K_WS_SERVER: {
          WebSocketMessageIOGateway * g = (id == K_WS_CLIENT) ? new WebSocketMessageIOGateway("/verif", "localhost", "", "") : new WebSocketMessageIOGateway();
-         if (wsSlave) g->SetSlaveGateway(AbstractMessageIOGatewayRef(new MessageIOGateway(encTable.empty() ? MUSCLE_MESSAGE_ENCODING_DEFAULT : encTable[0])));
+         if (wsSlave) { MessageIOGateway * sl = new MessageIOGateway(encTable.empty() ? MUSCLE_MESSAGE_ENCODING_DEFAULT : encTable[0]); sl->SetMaxIncomingMessageSize(MAX_INCOMING); g->SetSlaveGateway(AbstractMessageIOGatewayRef(sl)); }
          return AbstractMessageIOGatewayRef(g); }
       }
       return AbstractMessageIOGatewayRef();
@@ -228,6 +233,8 @@ struct Kind {
       case K_RAW: CanonRaw(static_cast<const RawDataMessageIOGateway &>(g), o); break;
       case K_SLIP: CanonSlip(static_cast<const SLIPFramedDataMessageIOGateway &>(g), o); break;
       case K_WS_CLIENT: case K_WS_SERVER: CanonWebSocket(static_cast<const WebSocketMessageIOGateway &>(g), o); break;
+      case K_MINI_C: CanonMiniC(static_cast<const MiniCGateway &>(g), o); break;
+      case K_MICRO_C: CanonMicroC(static_cast<const MicroCGateway &>(g), o); break;
       }
    }
    // an error state of the gateway or its slave (after which it stops moving data)
